@@ -213,7 +213,14 @@ class StickyAssignmentExecutor:
     def _initialize(self, cluster: ClusterMetadata) -> None:
         self._init_current_assignments(self.members)
 
+        # only topics somebody subscribes to take part in the assignment: a topic that
+        # is merely known to the cluster must not make the subscriptions look different
+        subscribed_topics = {
+            topic for member in self.members.values() for topic in member.subscription
+        }
         for topic in cluster.topics():
+            if topic not in subscribed_topics:
+                continue
             partitions = cluster.partitions_for_topic(topic)
             if partitions is None:
                 log.warning("No partition metadata for topic %s", topic)
@@ -223,7 +230,9 @@ class StickyAssignmentExecutor:
                 self.partition_to_all_potential_consumers[partition] = []
         for consumer_id, member_metadata in self.members.items():
             self.consumer_to_all_potential_partitions[consumer_id] = []
-            for topic in member_metadata.subscription:
+            # in a fixed order, so that members listing the same topics in a different
+            # order have identical potential partitions
+            for topic in sorted(set(member_metadata.subscription)):
                 partitions_for_topic = cluster.partitions_for_topic(topic)
                 if partitions_for_topic is None:
                     log.warning("No partition metadata for topic %r", topic)
